@@ -303,6 +303,7 @@ macro_rules! step_group {
         #[kani::stub(Cpu::calc_state_with_addr, seam::cost)]
         #[kani::stub(Cpu::send_message, seam::cpu_send_message)]
         #[kani::stub(Bus::send_message, seam::bus_send_message)]
+        #[kani::stub(Cpu::trapa_emulate_mes2, seam::mes_call)]
         fn $g() {
             let sel: usize = kani::any();
             let mut i = 0usize;
